@@ -23,8 +23,15 @@ class Deadline(Exception):
     pass
 
 
+EXPLICIT = ("begin", "await", "task")   # gates that the harness code requests itself, in both replay modes
+
+
 class Sched:
-    def __init__(self, order, patience=3.0):
+    def __init__(self, order, patience=3.0, mode="sync", gates=None, ungated_until=None):
+        self.mode = mode                    # "sync": turns at synchronisation operations; "line": turns at source lines
+        self.gates = gates or set()
+        self.ungated = dict(ungated_until or {})   # thread -> explicit sync kind that ends its ungated set-up prefix
+        self.last_kind = {}
         self.order = list(order)
         self.pos = 0
         self.cv = threading.Condition()
@@ -42,6 +49,24 @@ class Sched:
     def sync(self, kind):
         """block until it is this thread's turn; returns the expected kind of the granted step"""
         name = self.me()
+        if name in self.ungated:
+            # set-up prefix (e.g. serve()'s initialisation): not part of the schedule
+            if kind == self.ungated[name]:
+                del self.ungated[name]
+            return kind
+        if self.mode == "line" and kind not in EXPLICIT:
+            # primitives are not gates of their own in line mode; a wait learns how it ends from the line's grant
+            k = self.last_kind.pop(name, None)
+            return k if k in ("wait-timeout", "interrupt") else kind
+        return self._turn(name, kind)
+
+    def line(self, filename, lineno):
+        name = self.me()
+        if self.free or name in self.ungated or (filename, lineno) not in self.gates:
+            return
+        self._turn(name, f"line:{filename}:{lineno}")
+
+    def _turn(self, name, kind):
         with self.cv:
             t0 = time.time()
             while True:
@@ -49,7 +74,8 @@ class Sched:
                     self.free = True
                     self.log.append((name, kind))
                     return kind
-                exp_name, exp_kind = self.order[self.pos]
+                entry = self.order[self.pos]
+                exp_name, exp_kind = entry[0], entry[1]
                 if exp_name == name:
                     if not self._compatible(exp_kind, kind):
                         self.diverged = f"step {self.pos}: model expects {exp_name}:{exp_kind}, real thread does {kind}"
@@ -58,6 +84,8 @@ class Sched:
                         return kind
                     self.pos += 1
                     self.log.append((name, exp_kind))
+                    if len(entry) > 2 and entry[2]:
+                        self.last_kind[name] = entry[2]
                     self.cv.notify_all()
                     return exp_kind
                 if time.time() - t0 > self.patience:
@@ -153,11 +181,34 @@ class ReplayExecModel(gb.ThreadExecModel):
 
         def run():
             self.sched.names[threading.get_ident()] = name
+            install_tracer(self.sched)
             self.sched.sync("begin")
             func(*args)
 
         t = threading.Thread(target=run, daemon=True, name=name)
         t.start()
+
+
+def install_tracer(sched):
+    """line-granular replay: every controlled thread asks for its turn before a gated source line"""
+    if sched.mode != "line":
+        return
+    import sys
+
+    wanted = {f for f, _ in sched.gates}
+
+    def local(frame, event, arg):
+        if event == "line":
+            sched.line(frame.f_code.co_filename, frame.f_lineno)
+        return local
+
+    def tracer(frame, event, arg):
+        if frame.f_code.co_filename in wanted:
+            if event == "call":
+                return local
+        return None
+
+    sys.settrace(tracer)
 
 
 class Ghost:
@@ -177,11 +228,11 @@ class Ghost:
             self._cv.notify_all()
 
 
-def run_schedule(programs: dict, order, env_builder, patience=3.0, settle=1.0):
+def run_schedule(programs: dict, order, env_builder, patience=3.0, settle=1.0, mode="sync", gates=None, ungated_until=None):
     """programs: {thread name: (source, args dict)} of the static harness threads (setup first, run
     synchronously).  env_builder(sched, G) -> dict of globals for the programs (real classes, EM,
     TASKn callables).  Returns (ghost dict, finished thread names, blocked thread names, sched)."""
-    sched = Sched(order, patience)
+    sched = Sched(order, patience, mode, gates, ungated_until)
     G = Ghost(sched)
     env = env_builder(sched, G)
     env["G"] = G
@@ -200,9 +251,10 @@ def run_schedule(programs: dict, order, env_builder, patience=3.0, settle=1.0):
 
         def run():
             sched.names[threading.get_ident()] = name
+            install_tracer(sched)
             sched.sync("begin")
             try:
-                fn(**{k: ns[v] if isinstance(v, str) and v in ns else v for k, v in args.items()})
+                fn(**{k: (v(ns) if callable(v) else (ns[v] if isinstance(v, str) and v in ns else v)) for k, v in args.items()})
                 done[name] = "end"
             except BaseException as e:  # an uncaught exception ends the thread, as in the model
                 done[name] = "uncaught:" + type(e).__name__
